@@ -146,6 +146,32 @@ Theorem add_trait_is_faithful_iff_matched :
 Proof. exact Compose.add_trait_is_faithful_iff_matched. Qed.
 Print Assumptions add_trait_is_faithful_iff_matched.
 
+(* HISTORIES (Compose.ComposeHist): along any admissible C09 history -- registrations and removals of any handlers,
+   scalar changes, Instance-link reassignments, in-place container mutations, add_trait -- interleaved with reads of
+   the property and listeners coming and going, the interface hypothesis is a theorem, and hence the law, provided
+   only that a step firing no slot matched by the property's live registrations leaves the observed view unchanged *)
+Theorem dynamic_histories_are_faithful :
+  forall (W : Type) (f : W -> Z) (cached : bool) (view : W -> list Z) (k : C09.Model.key)
+         (ops : list (jop W)) (d : C09.Dyn.dstate) (R : list C09.DynCount.reg) (cs : state W),
+    C09.DynCount.dstate_inv d R -> C09.Proofs.wfH (C09.Model.st_hooks (C09.Dyn.d_st d)) ->
+    C09.DynAdd.admissible_run3 d R (cops W ops) ->
+    coherent W view k d R (world cs) ops ->
+    faithful_hist W f cached view cs (joint W k d R ops).
+Proof. exact Compose.dynamic_histories_are_faithful. Qed.
+Print Assumptions dynamic_histories_are_faithful.
+
+Theorem law_holds_on_dynamic_histories :
+  forall (W : Type) (f : W -> Z) (cached : bool) (view : W -> list Z) (k : C09.Model.key),
+    (forall w w', view w = view w' -> f w = f w') ->
+    forall (ops : list (jop W)) (d : C09.Dyn.dstate) (R : list C09.DynCount.reg) (cs : state W) i runs,
+      C09.DynCount.dstate_inv d R -> C09.Proofs.wfH (C09.Model.st_hooks (C09.Dyn.d_st d)) ->
+      C09.DynAdd.admissible_run3 d R (cops W ops) ->
+      coherent W view k d R (world cs) ops ->
+      inv W f cs -> (cached = true -> (runs + slack W cs <= 1)%nat) ->
+      law_hist cached i (f (world cs)) runs (listeners cs) (observe W f cached view cs (joint W k d R ops)) = [].
+Proof. exact Compose.law_holds_on_dynamic_histories. Qed.
+Print Assumptions law_holds_on_dynamic_histories.
+
 (* REFUTED without the interface hypothesis (listed finding F23): when the observe machinery delivers nothing
    for a relevant change — which is what happens to a Property(observe=...) added with add_trait /
    add_class_trait, whose observers are never installed — a cached property is stale and a listener hears
@@ -252,6 +278,56 @@ Proof.
   - vm_compute. reflexivity.
   - vm_compute. reflexivity.
   - vm_compute. repeat split; reflexivity.
+Qed.
+
+(* non-vacuity of the joint theorem: the property of object 0 observes child.value (child = object 1); the world is
+   the observed view itself.  The child's value changes (delivered), the child is un-linked (delivered), the former
+   child's value changes again (not matched any more, not delivered, view unchanged); reads in between *)
+Example dynamic_history_nontrivial :
+  let g := C09.Model.G (C09.Model.NNamed 3%nat true false) [C09.Model.G (C09.Model.NNamed 2%nat true false) []] in
+  let k := (7, 0, 0)%nat in
+  let s0 := C09.Model.mkState (fun _ => []) [] [] in
+  let s1 := fst (C09.Model.step cx_heap s0 (C09.Model.Register 0%nat 7%nat 0%nat [g])) in
+  let d := C09.Dyn.mkD cx_heap s1 in
+  let R := [(k, g, 0%nat)] in
+  let chg := C09.DynAdd.C2 (C09.DynSlot.C1 (C09.DynCount.CChange 1%nat 2%nat)) in
+  let ops := [JRead (list Z); JListen (list Z); JStep (list Z) chg [5]; JRead (list Z);
+              JStep (list Z) (C09.DynAdd.C2 (C09.DynSlot.C1 (C09.DynCount.CLink 0%nat 3%nat []))) []; JRead (list Z);
+              JStep (list Z) chg []; JRead (list Z)] in
+  C09.DynCount.dstate_inv d R /\ C09.Proofs.wfH (C09.Model.st_hooks s1)
+  /\ C09.DynAdd.admissible_run3 d R (cops (list Z) ops)
+  /\ coherent (list Z) (fun w => w) k d R [3] ops
+  /\ joint (list Z) k d R ops
+     = [Read; Listen; Mut [5] true 1%nat; Read; Mut [] true 1%nat; Read; Mut [] false 0%nat; Read].
+Proof.
+  intros g k s0 s1 d R chg ops.
+  assert (C09.DynCount.dinv cx_heap (C09.Model.st_hooks s1) R) as I.
+  { pose proof (C09.DynCount.register_step cx_heap (fun _ => []) [] 0%nat 7%nat 0%nat g s0 s1
+                  (snd (C09.Model.step cx_heap s0 (C09.Model.Register 0%nat 7%nat 0%nat [g])))) as Rs.
+    assert (C09.DynCount.dinv cx_heap (fun _ => []) []) as I0.
+    { split; [intros o; reflexivity|split; [intros; reflexivity|intros ? ? ? []]]. }
+    specialize (Rs I0 eq_refl). unfold s1 in *.
+    destruct (C09.Model.step cx_heap s0 (C09.Model.Register 0%nat 7%nat 0%nat [g])) as [s' ob] eqn:St.
+    specialize (Rs eq_refl). cbn [fst snd] in *.
+    assert (C09.Model.o_out ob = None) as Ok by (vm_compute in St; inversion St; reflexivity).
+    rewrite Ok in Rs. exact Rs. }
+  split; [split; [exact I|split; reflexivity]|]. split.
+  { apply (C09.Proofs.step_wf cx_heap s0 (C09.Model.Register 0%nat 7%nat 0%nat [g]) s1
+             (snd (C09.Model.step cx_heap s0 (C09.Model.Register 0%nat 7%nat 0%nat [g]))) C09.Proofs.wf_empty).
+    unfold s1. destruct (C09.Model.step cx_heap s0 (C09.Model.Register 0%nat 7%nat 0%nat [g])); reflexivity. }
+  split; [|split].
+  - cbn [cops flat_map app C09.DynAdd.admissible_run3 C09.DynAdd.admissible3 C09.DynSlot.admissible2 C09.DynCount.admissible].
+    repeat split; try exact Logic.I.
+    + intros ch y Hy. change (C09.Dyn.d_heap (fst (C09.Dyn.dstep d (C09.DynAdd.dop_of3 chg)))) with cx_heap in *.
+      assert (y = 1%nat) as -> by (vm_compute in Hy; intuition). destruct ch as [n cs]. cbn [C09.DynCount.visits].
+      assert (C09.DynCount.hits cx_heap 0%nat 3%nat n 1%nat = false) as -> by (destruct n; cbn; rewrite ?andb_false_r; reflexivity).
+      assert (C09.DynCount.nexts cx_heap n 1%nat = []) as ->.
+      { destruct n as [f0 nt opt|ck nt opt]; unfold C09.DynCount.nexts; cbn;
+          repeat (match goal with |- context [if ?b then _ else _] => destruct b end; try reflexivity). }
+      cbn. induction cs; cbn; auto.
+    + intros k' g' x' Hin. vm_compute in Hin. destruct Hin as [E|[]]. inversion E; subst. vm_compute. reflexivity.
+  - vm_compute. repeat split; congruence.
+  - vm_compute. reflexivity.
 Qed.
 
 Example nested_nontrivial :
